@@ -107,6 +107,44 @@ Theorem C02_getter_returns_bound : forall L A sel (decode : bytes -> option A) s
 Proof. intros L A sel decode src lookup s hash r s' p. apply getter_sound; reflexivity. Qed.
 Print Assumptions C02_getter_returns_bound.
 
+(* the glue on its own: for ANY validator whose acceptances are bound (Network.validator is an interface) and under
+   scripted storage faults (every Get of the call fails / every Put fails), validateContents and the getters store
+   and return only bound content, and do not panic when the validator does not *)
+Theorem C02_glue_offer_any_validator : forall L validate gfail pfail keys contents i s puts r s' puts',
+  (forall k c, validate k c = Ok tt -> genuine L k c) ->
+  validate_contents_loop_g validate gfail pfail keys i contents s puts = (r, s', puts') ->
+  store_ok L s -> Forall (gp L) puts -> store_ok L s' /\ Forall (gp L) puts'.
+Proof. intros L validate gfail pfail keys contents i s puts r s' puts' Hv. now apply loop_g_sound. Qed.
+Print Assumptions C02_glue_offer_any_validator.
+
+Theorem C02_glue_getter_any_validator : forall L A validate gfail pfail sel (decode : bytes -> option A) lookup s hash r s' p,
+  (forall k c, validate k c = Ok tt -> genuine L k c) ->
+  getter_g validate gfail pfail sel decode lookup s hash = (r, s', p) -> store_ok L s ->
+  store_ok L s' /\ Forall (gp L) p /\
+  (forall a, r = Ok a -> exists c, genuine L (sel :: hash) c /\ decode c = Some a).
+Proof. intros L A validate gfail pfail sel decode lookup s hash r s' p. apply getter_g_sound. Qed.
+Print Assumptions C02_glue_getter_any_validator.
+
+Theorem C02_glue_never_panics : forall A validate gfail pfail sel (decode : bytes -> option A) lookup s hash keys contents puts,
+  (forall k c, validate k c <> Panic) ->
+  fst (fst (getter_g validate gfail pfail sel decode lookup s hash)) <> Panic /\
+  (length keys = length contents -> fst (fst (validate_contents_loop_g validate gfail pfail keys 0 contents s puts)) <> Panic).
+Proof.
+  intros A validate gfail pfail sel decode lookup s hash keys contents puts Hv. split.
+  - now apply getter_g_no_panic.
+  - intros Hl. apply loop_g_no_panic; [exact Hv | simpl; lia].
+Qed.
+Print Assumptions C02_glue_never_panics.
+
+(* the written-out validateContents / getters of the model are the fault-free instances of that generic glue *)
+Theorem C02_glue_instances : forall L v src,
+  (forall keys contents i s puts,
+     vcs_loop L v src keys i contents s puts = validate_contents_loop_g (vc L v src) false false keys i contents s puts) /\
+  (forall A sel (decode : bytes -> option A) lookup s hash,
+     gett L v sel decode src lookup s hash = getter_g (vc L v src) false false sel decode lookup s hash).
+Proof. intros L v src. split; [intros; apply loop_is_instance | intros; apply getter_is_instance]. Qed.
+Print Assumptions C02_glue_instances.
+
 (* all histories of offers and getter calls from the empty store, every step with its own arbitrary source and
    network answer: every Put and every returned value is bound to its key, and the store stays bound *)
 Theorem C02_history_sound : forall L ops obs s',
